@@ -7,6 +7,7 @@ Import ListNotations.
 Record case_result := {
   cr_len : nat;
   cr_line_nums : list (nat * outcome (option nat));            (* every byte offset 0..len+1 *)
+  cr_line_bytes : list (nat * outcome (option nat));           (* byte_to_line_byte, every byte offset 0..len+1 *)
   cr_line_cols : list (nat * outcome (option (nat * nat)));    (* every boundary, and len+1 *)
   cr_spans : list (nat * nat * outcome (nat * nat))            (* every boundary pair s <= e *)
 }.
@@ -24,5 +25,6 @@ Definition run_case (chunks : list (list N)) : outcome case_result :=
   let bs := boundaries text in
   Done {| cr_len := len;
           cr_line_nums := map (fun off => (off, byte_to_line_num c off)) (seq 0 (len + 2));
+          cr_line_bytes := map (fun off => (off, byte_to_line_byte c off)) (seq 0 (len + 2));
           cr_line_cols := map (fun off => (off, byte_to_line_col c text off)) (bs ++ [len + 1]);
           cr_spans := map (fun '(s, e) => (s, e, span_line_bytes c s e)) (pairs_from bs) |}.
